@@ -90,6 +90,78 @@ def extra_rustc(gen, nq, nt, key_of=None):
     return run
 
 
+def extra_twins(nq, nt, per=120):
+    """C12: the same definition once with #[derive_ex(..)], once with #[derive(..)]; behaviour compared in-program"""
+    import concurrent.futures as cf
+    import subprocess
+
+    def one(args):
+        seed, start, count, tag = args
+        src, cases = l2gen.gen_c12_program(seed, start, count)
+        base = f'{vlib.WORK}/l2/{tag}_twin_{start}'
+        os.makedirs(os.path.dirname(base), exist_ok=True)
+        open(base + '.rs', 'w').write(src)
+        r = l2.rustc(base + '.rs', base + '.bin')
+        if r.returncode != 0:
+            return dict(start=start, cases=cases, compile_error=r.stderr[-5000:], src=base + '.rs')
+        o = subprocess.run([base + '.bin'], capture_output=True, text=True)
+        try:
+            os.remove(base + '.bin')
+        except OSError:
+            pass
+        return dict(start=start, cases=cases, out=o.stdout.splitlines(), rc=o.returncode, err=o.stderr[-2000:], src=base + '.rs')
+
+    def run(prop, tier, seed, violation, known, known_hit, notes):
+        ok, log = l2.build_pm()
+        if not ok:
+            violation('pm-build', dict(what='the proc-macro does not build', log=log), no_input=True)
+            return {}
+        n = nq if tier == 'quick' else nt
+        jobs = [(seed, s, min(per, n - s), prop) for s in range(0, n, per)]
+        types = checks = fails = 0
+        dist = {}
+        nviol = 0
+        with cf.ThreadPoolExecutor(vlib.NPROC) as ex:
+            for res in ex.map(one, jobs):
+                for c in res['cases']:
+                    dist['shape=' + c['shape']] = dist.get('shape=' + c['shape'], 0) + 1
+                    if c['raw']:
+                        dist['raw-identifiers'] = dist.get('raw-identifiers', 0) + 1
+                    for t in c['traits']:
+                        dist['trait=' + t] = dist.get('trait=' + t, 0) + 1
+                if 'compile_error' in res:
+                    nviol += 1
+                    if nviol <= 3:
+                        violation(f'twin-compile-{res["start"]}', dict(
+                            what='a type definition the standard derives accept does not compile with derive_ex (or the twin program is broken)',
+                            program=res['src'], stderr=res['compile_error']))
+                    continue
+                types += len(res['cases'])
+                if res['rc'] != 0:
+                    nviol += 1
+                    violation(f'twin-crash-{res["start"]}', dict(what='twin program crashed', program=res['src'], stderr=res['err']))
+                for line in res['out']:
+                    parts = line.split(' ')
+                    if len(parts) >= 3 and parts[1] == 'ok':
+                        checks += int(parts[2])
+                    elif ' FAIL ' in line:
+                        fails += 1
+                        nviol += 1
+                        if nviol <= 5:
+                            mod = parts[0]
+                            item = next((c['item'] for c in res['cases'] if c['mod'] == mod), '')
+                            violation(f'twin-{mod}', dict(
+                                what='derive_ex and the standard derive behave differently on the same definition and values',
+                                property=prop, observation=line, item=item, program=res['src']))
+                if not fails and 'compile_error' not in res:
+                    try:
+                        os.remove(res['src'])
+                    except OSError:
+                        pass
+        return dict(l2=dict(twin_types=types, comparisons=checks, differences=fails, distribution=dist, seed=seed))
+    return run
+
+
 def extra_meta(which, nq, nt):
     """metamorphic relations between real expansions (model-free verdict)"""
     def run(prop, tier, seed, violation, known, known_hit, notes):
@@ -195,6 +267,17 @@ PROPS.update({
                                  'DX.default_enum_rejections', 'DX.default_enum_follows_doc'])],
         l1=[('basic', 4000, 150000), ('all', 3000, 100000)],
         labels=r':Default$',
+    ),
+    'C12': dict(
+        theorems=[(CMP + 'C12', ['DX.plain_record', 'DX.plain_accepted', 'DX.plain_eq_is_std', 'DX.plain_cmp_is_std',
+                                 'DX.plain_pcmp_is_std', 'DX.plain_hash_is_fieldwise', 'DX.plain_debug_is_std',
+                                 'DX.plain_default_is_std']),
+                  (CMP + 'C07', ['DX.clone_fieldwise', 'DX.clone_from_spec'])],
+        l1=[('basic', 3000, 100000), ('cmpN', 2000, 50000)],
+        labels=r':(Clone|Debug|Default|PartialEq|Eq|PartialOrd|Ord|Hash)(#1)?$',
+        kinds=('panic', 'nondet', 'parse', 'count', 'class'),
+        extra=extra_twins(1200, 24000),
+        level_text='Lean corollaries: for attribute-free items the documented rule proved in C01/C06/C07/C10/C11 is the standard derive\'s rule; L2: twin programs (same definition under derive_ex and under derive) over a shape grammar incl. empty enums, unsized tails, raw identifiers, lifetimes, const parameters, parameter defaults; all values / pairs, ten format specs, clone_from over all pairs; the compile-on-every-shape part is decided by rustc, not by a theorem',
     ),
     'C13': dict(
         theorems=[],
